@@ -42,7 +42,7 @@ def run(ctx):
     b = ctx.bin
     runs = [x for x in b.real_bodies() if any(cname(c.node).endswith("::into_struct") for c in x.calls())]
     if len(runs) == 1:
-        rb = runs[0]
+        rb = mir.inline_calls(b, runs[0], lambda cb, t: not cb.name.startswith("<") and "::<impl " not in cb.name and cb.kind in ("fn", "assoc_fn") and cb.name != "main")
         rend = [c for c in rb.calls() if cname(c.node).endswith("Element::to_serde_struct")]
         if len(rend) == 1:
             c12.check_options(r, rb, rend[0], "")
